@@ -35,7 +35,7 @@ fn main() {
             "thorough" => Tier::Thorough,
             _ => usage(),
         };
-        let ctx = RunCtx { id: args[1].clone(), tier, seed, shards, start: Instant::now() };
+        let ctx = RunCtx { id: args[1].clone(), tier, seed, shards, start: Instant::now(), shrink_iters: 4000 };
         vv::props::run(&ctx)
     };
     vv::util::cleanup_scratch_base();
